@@ -27,8 +27,7 @@ class C14(SessionCheck):
     RULE = ('byte streams from a mutation grammar over valid frame sequences (drop/insert/flip a byte, chunk size +-1 / 0 / leading zero / '
             '20 digits, missing LF, end-of-chunks first, truncation anywhere, invalid UTF-8 and NUL inserted anywhere, garbage prefix, '
             'duplicated delimiter; 1-3 mutations) x random segmentations, both versions; plus bounded-exhaustive streams over the alphabet '
-            'Chunk headers of 1-14 digits not terminated by LF; mid-message EOF biased to chunk boundaries. '
-            '{LF # 1 2 0 ] > x C3 A9} (quick: length <= 5, thorough: <= 6) x {whole, every single cut}. Non-trivial = the reference decoder '
+            '{LF # 1 2 0 ] > x C3 A9} (quick: length <= 5, thorough: <= 6) x {whole, every single cut}. Chunk headers of 1-14 digits not terminated by LF; mid-message EOF biased to chunk boundaries. Non-trivial = the reference decoder '
             'finds a framing violation, an undecodable payload, or >= 1 payload; distinct by (version, reads). Plus lock-step session histories '
             '(odd / hostile messages, faults) compared with Model/Session, with the stop invariant evaluated on the real objects.')
     TRUST = SessionCheck.TRUST + ['the reference RFC 4742/6242 decoders in harness/oracle/framing_spec.py']
